@@ -34,6 +34,7 @@ var precGapPieces = 2
 var precMinusRuns []int
 var precThorough = false
 var precQ = false
+var precWide = false // 3-operator chains with 2-byte tokens (seeded sample of the thorough tier only)
 
 var c10Prec = map[string]int{"or": 1, "and": 2, "=": 3, "!=": 3, "<": 4, "<=": 4, ">": 4, ">=": 4, "+": 5, "-": 5, "*": 6, "div": 6, "mod": 6, "|": 8}
 
@@ -125,7 +126,7 @@ func precInst(ops []string, neg []bool, kinds []string) *vm.Instance {
 	case len(ops) == 2 || !precThorough:
 		tokmax = "2"
 	}
-	if precThorough && len(ops) == 3 {
+	if precThorough && len(ops) == 3 && precWide {
 		tokmax = "2"
 	}
 	return &vm.Instance{ID: "chain: " + t, Harness: "H_prec",
@@ -138,8 +139,9 @@ func buildC10(tier string, seed int64) *Family {
 	nSeed := 150
 	precGapPieces = 2
 	precThorough = tier == "thorough"
+	precWide = false
 	if tier == "thorough" {
-		nSeed = 2500
+		nSeed = 900
 		precGapPieces = 3
 	}
 	var insts []*vm.Instance
@@ -223,6 +225,7 @@ func buildC10(tier string, seed int64) *Family {
 			}
 		}
 	}
+	precWide = true
 	for k := 0; k < nSeed; k++ {
 		n := 3 + k%3
 		ops := make([]string, n)
